@@ -186,6 +186,27 @@ def run(ctx: Ctx, tier: str) -> Result:
         res.ok("C18.FROZEN", {"_immutable set last in __init__ from its parameter": True})
     else:
         res.fail(Finding("C18.FROZEN", init.qname, "<self._immutable = immutable>", init.loc(), "the immutable flag is not set once, from the constructor argument, after the initial attributes were stored"))
+    # the initial attributes go in one by one through __setitem__, all of them: capacity, cleaning and the drop count are decided
+    # there per entry (an entry that is rejected takes no slot and evicts nothing - a count worked out from the sizes is wrong)
+    okinit = False
+    if len(sets) == 1:
+        lps_i = [l for l in paths.enclosing_loops(p, sets[0], init) if isinstance(l, ast.For)]
+        st_i = paths.stmt_of(p, sets[0])
+        if len(lps_i) == 1 and isinstance(lps_i[0].target, ast.Tuple) and len(lps_i[0].target.elts) == 2:
+            it_x = ctx.expand.expand(lps_i[0].iter, init)
+            okinit = it_x == ["%s.items()" % P(init, 2)] and norm(sets[0].slice) == norm(lps_i[0].target.elts[0]) and norm(st_i.value) == norm(lps_i[0].target.elts[1]) \
+                and not [n for n in ast.walk(lps_i[0]) if isinstance(n, (ast.Break, ast.Continue, ast.Return))] \
+                and not [c_ for c_, pol in paths.conditions(p, sets[0], init) if paths.within(p, c_, lps_i[0])]
+    drops_i = [n for n in t.nodes_in(init, (ast.Assign, ast.AugAssign)) if any(norm(x) == "self.dropped" for x in (n.targets if isinstance(n, ast.Assign) else [n.target]))
+               and not (isinstance(n, ast.Assign) and isinstance(n.value, ast.Constant) and n.value.value == 0)]
+    if okinit and not drops_i:
+        res.ok("C18.CAP", {"initial attributes stored one by one through __setitem__": True})
+    elif not sets and not any(True for _ in [0] if init.params[2:3]):
+        pass
+    else:
+        bad_ = drops_i[0] if drops_i else (sets[0] if sets else init.node)
+        res.fail(Finding("C18.CAP", init.qname, bad_, init.loc(bad_), "the constructor does not put every initial attribute through __setitem__ (or sets the drop count itself): entries that "
+                         "would have been rejected are counted as if they had taken a slot, and valid older entries are lost for them"))
     default_imm = None
     a = init.node.args
     for prm, d in zip((a.posonlyargs + a.args)[len(a.posonlyargs + a.args) - len(a.defaults):], a.defaults):
